@@ -404,6 +404,7 @@ where
             self.deques.unlink_ao(&mut entry);
             Deques::unlink_wo(&mut self.deques.write_order, &mut entry);
             self.saturating_sub_from_total_weight(weight as u64);
+            self.entry_count -= 1;
         }
     }
 
